@@ -493,6 +493,7 @@ class HeapExecutor(PureExecutor):
 
 HEAP_DECLS = """
 (declare-fun canon_uuid (String) Bool)
+(assert (forall ((s String)) (! (=> (canon_uuid s) (= (str.len s) 36)) :pattern ((canon_uuid s)))))
 (declare-fun uuid_ok (Val) Bool)
 (declare-fun uuid_canon (Val) String)
 (declare-fun deq_h (Int Val Val) Bool)
